@@ -24,7 +24,22 @@ CFG = {
             "1 MiB stack (a worker thread of a user of the crate), so the verdict does not depend on the 8 MiB main thread; the unchanged code needs < 1/4 of it "
             "at d = 64. The list-based model is quadratic in the width: it runs the profiles of estimated work <= 6*10^8 list cells (widths 300, 10^3, arrays "
             "3000; all `run` kinds but comment runs up to 10^6); above that the model's line is the closed form, confirmed by the smaller widths of the same "
-            "family. non-trivial = input nesting >= 2 (distinct by case hash), width / run length >= 1000",
+            "family. STARTING DEPTH > 0 (`at <k0> <case>`): every case kind above also on a context whose depth is ALREADY k0 in {1, 2, d/2, d-1, d} (the "
+            "harness calls the public enter_obj() k0 times before parse_pdf_obj, as a client embedding the object parser in its own nesting would; the model "
+            "runs parseObj <k0, d>): every bound d in 1..64 x every k0 x 3 opener kinds x nesting in {rem-1, rem, rem+1, rem+2} with rem = d - k0 levels "
+            "remaining (k0 = d: even a scalar is rejected); random profiles / truncations from random starting depths (n/2 pairs; thorough n/3); unclosed "
+            "nesting; width profiles (300, some 10^3 / 10^4, three 10^5) with the wide level at position 1, rem/2, rem-1, rem; all 20 length profiles at the "
+            "bound and one beyond. SEQUENCES (`seq <d> <k0> ; step ; step [; step]`): two and three parses on ONE context (fresh buffer each), every d in "
+            "0..64 x k0 in {0, 1, 2, d/2, d-1, d}: reject-at-the-bound then accept exactly at the bound then reject again, accept / reject / accept, two "
+            "rejections then an object one level deeper still (must not add up), bound rejections interleaved with syntax errors at depth (leaf missing, "
+            "closers missing, last closing byte missing) and with 10^3 unclosed openers; random sequences of 2-3 random steps at random (d, k0); sequences of "
+            "wide / long steps. Expected (oracle, from the description alone, the model is not consulted): for EVERY step and EVERY outcome depth after = depth "
+            "before (the harness reports the difference per step), an object is accepted iff k0 + its nesting <= d (k0 = the starting depth: by the property, "
+            "the depth before every step), accepted values as above; the first failing step is named (`step=i`). After the case the harness leaves "
+            "min(k0, depth) times, so leave_obj's assert is never tripped by the harness itself. The theorem depth_restored is stated for an ARBITRARY context "
+            "(cur <= max), i.e. it covers every non-zero starting depth and, by iteration, every sequence; accepted_depth_le reads cur + depth <= max. "
+            "non-trivial = input nesting >= 2 (distinct by case hash), width / run length >= 1000; `at`: k0 >= 1 and the inner case non-trivial; `seq`: >= 2 "
+            "steps, one of them non-trivial",
     "trusted_base": COMMON_TB + ["modelled, not verified: ParseBuffer primitives as list functions; the real machine stack"],
     "assumptions": ["depth of a value = number of nested parse_pdf_obj activations needed to parse it (scalar or empty container = 1)"],
 }
@@ -35,5 +50,6 @@ LEVEL = {
             "context's depth is restored after every outcome, and that no panic site (leave_obj assert, nesting budget, loop fuel) is reachable; "
             "acceptance of every legally spelled object whose spelling depth is within the bound is a theorem too (within_bound_accepted, from C02's spell_parse); "
             "rejection beyond the bound is accepted_depth_le (contrapositive) and is also exercised by the oracle on generated nesting profiles; "
-            "model tied to parse_pdf_obj by the correspondence run (value, span, cursor, depth delta).",
+            "model tied to parse_pdf_obj by the correspondence run (value, span, cursor, depth delta), from a fresh context, from contexts that are "
+            "already k0 levels deep, and over sequences of parses on one context.",
 }
